@@ -8,7 +8,14 @@ CLAIMED = {
         "note": "trusted: numpy, the BFS model, the pristine-node two-hop oracle (blind to an error common to every registration order); EOP corrections are zero (policy 'pass')",
         "ref": "DESIGN.md 5.1",
     },
+    "C08": {
+        "level": "exploration",
+        "technique": "deterministic simulation: seeded scheduler interleaving, cancelling and abandoning lazily-consumed library iterators over shared orbit/propagator/ephemeris/listener objects; exact date-range model + fresh-node differential oracle",
+        "text": "seeded search over schedules (which live iteration steps next, where propagate calls land, which iterations are closed or abandoned and their objects re-used) on pools of orbits with every propagator kind (SGP4 near-earth/deep-space, Kepler, J2, none, KeplerNum, Clohessy-Wiltshire, ephemeris; pairs sharing one propagator instance). Every yielded item is checked against an exact integer-millisecond model of the date contract, against a direct propagation on a pristine node (bit-exact for analytical propagators and ephemerides), against the stream of the same call made alone on a pristine node (numerical propagator, listeners), and every pool object's digest is compared after every step. Sampling, not proof.",
+        "note": "trusted: numpy, sgp4 library; the differential oracle is blind to errors identical with and without history (numerical correctness is C05-C07, not applicable); KeplerNum values vs direct propagation only within a calibrated, integrator-dependent tolerance",
+        "ref": "DESIGN.md 5.2",
+    },
 }
 
 # claimed in DESIGN.md, check not yet registered
-PENDING = {k: 'designed in DESIGN.md section 5; its check is still under construction in this build phase and is therefore not claimed yet' for k in ['C03','C08','C10','C12','C13','C14','C15','C18']}
+PENDING = {k: 'designed in DESIGN.md section 5; its check is still under construction in this build phase and is therefore not claimed yet' for k in ['C03','C10','C12','C13','C14','C15','C18']}
